@@ -151,6 +151,24 @@ def handler_coverage_corpus():
     add("express-task-error", chain(("A", Task("f1")), Z), workers={"f1": {"*": ERR()}}, typ="EXPRESS")
     return out
 
+def bystander_family(tier="quick"):
+    """Every handler-coverage scenario next to a *bystander* execution of another machine that is blocked in a Task (reply
+    delayed), then in a Wait: whatever the first execution's handlers do must leave the bystander alone (cross-execution
+    interference: acknowledging, cancelling or timing out something that belongs to another execution)."""
+    out = []
+    by = chain(("BT", Task("fby")), ("BW", Wait(1)), ("BZ", Pass(Result="by-done", ResultPath="$.z")))
+    for s0 in handler_coverage_corpus():
+        if s0.get("script") or len(s0["machines"]) != 1:
+            continue
+        s = copy.deepcopy(s0)
+        s["name"] = "by+" + s0["name"]
+        s["family"] = "bystander+" + s0["family"]
+        s["machines"]["by"] = {"definition": by}
+        s["workers"] = dict(s["workers"], fby={"*": [["delay", ["ok", {"by": 1}]]]})
+        s["starts"] = [{"machine": "by", "name": "b1", "input": {"q": 1}}] + s["starts"]
+        out.append(s)
+    return out
+
 def poison_corpus():
     """Poison messages on the shared queue next to a healthy execution (C03 poison clause / C18)."""
     out = []
